@@ -169,9 +169,13 @@ CLAIMED = {
              "(raw_traverse_partial, raw_get_partial) - word for word what opGet/opTraverse report; and for EVERY input (any raw node, "
              "database, key) a raw-level _set/_delete/set/delete that stops at a missing node has written nothing "
              "(raw_failed_set_writes_nothing, raw_failed_delete_writes_nothing, raw_failed_op_leaves_db, over the transcription that "
-             "returns the state at exception exit, proved equal to the other one on every input: rawT_*_agrees). Tie: result or every exception field, state after the "
+             "returns the state at exception exit, proved equal to the other one on every input: rawT_*_agrees). The TREE-FREE executor "
+             "(root hash + database, no tree) on any partial database returns exactly the tree-carrying executor's exit state, root "
+             "and exception (Free.op_partial); when it raises MissingTrieNode the store and counts are untouched, no pending mark is "
+             "left, and the named hash is absent and on the path / the root / the normalisation sibling (Free.op_missing_atomic). Tie: result or every exception field, state after the "
              "failure, retry loop run to convergence, inside and outside squash_changes; the raw-level set/delete, get and traverse "
-             "are run on the same incomplete databases (reported node, consumed nibbles, result).",
+             "are run on the same incomplete databases (reported node, consumed nibbles, result), and so is the tree-free executor on its "
+             "own copy of the damaged database (outcome, root, full database, counts after every attempt of the retry loop).",
         technique="Lean 4 proof (event-order invariant ReadsFirst, executor case analysis) + correspondence check with node removal",
         design_ref="6/C07"),
     "C12": dict(
